@@ -9,7 +9,9 @@ judged by the property-level oracle, they are only not part of the model/impleme
                (index not a slice), Tuple/List/Set (Load), Dict (no ** entries), NamedExpr, BoolOp, IfExp,
                Lambda without parameters defaults, comprehensions (-> EBad KComp)
   statements   Expr, Assign (targets Name / Attribute / Subscript), AugAssign, Return, Raise,
-               Pass, Break, Continue, If, While, For, With (one item, `as` a plain name or absent)
+               Pass, Break, Continue, If, While, For, With (one item, `as` a plain name or absent),
+               Try (except clauses with any type expression of the fragment / none, `as` name or absent;
+               else; finally)
 """
 import ast
 import re
@@ -210,6 +212,16 @@ class Exporter(object):
             else:
                 raise Untranslatable('with: target not a plain name')
             return '(SWith %s %s %s)' % (self.expr(it.context_expr), v, self.block(s.body))
+        if isinstance(s, ast.Try):
+            hs = []
+            for h in s.handlers:
+                if type(h) is not ast.ExceptHandler:
+                    raise Untranslatable('except clause ' + type(h).__name__)
+                if h.name is not None and TMP_RE.match(h.name):
+                    raise Untranslatable('except: `as` name of gensym shape')
+                hs.append('(%s, %s, %s)' % (self.opt(h.type), 'None' if h.name is None else '(Some %s)' % coq_str(h.name),
+                                            self.block(h.body)))
+            return '(STry %s %s %s %s)' % (self.block(s.body), coq_list(hs), self.block(s.orelse), self.block(s.finalbody))
         raise Untranslatable('statement ' + type(s).__name__)
 
 
